@@ -1540,11 +1540,12 @@ fn cast_num(
             // float to int
 
             // cranelift can only convert floats to i32 or i64, so we do that first,
-            // then cast the i32 or i64 to the actual one we want
-            let int_to = match cast_from.bit_width() {
-                32 => types::I32,
-                64 => types::I64,
-                _ => unreachable!(),
+            // then cast the i32 or i64 to the actual one we want.
+            // the intermediate int is chosen by the *target* so that every value which fits the
+            // target survives the conversion (an `f32` can hold values far beyond `i32`)
+            let int_to = match cast_to.bit_width() {
+                8 | 16 | 32 => types::I32,
+                _ => types::I64,
             };
 
             let first_cast = if cast_to.signed {
@@ -1554,7 +1555,7 @@ fn cast_num(
             };
 
             // now we can convert the `first_cast` int value to the actual int type we want
-            match cast_from.bit_width().cmp(&cast_to.bit_width()) {
+            match int_to.bits().cmp(&(cast_to.bit_width() as u32)) {
                 std::cmp::Ordering::Less if cast_to.signed => {
                     builder.ins().sextend(cast_to.ty, first_cast)
                 }
@@ -1566,17 +1567,16 @@ fn cast_num(
         (false, true) => {
             // int to float
 
-            // first we have to convert the int to an int that can converted to float
-            let int_to = match cast_to.bit_width() {
-                32 => types::I32,
-                64 => types::I64,
-                _ => unreachable!(),
+            // first we have to convert the int to an int that can converted to float.
+            // the intermediate int is chosen by the *source* so that the float receives the
+            // source's full value, and it is extended according to the source's signedness
+            let int_to = match cast_from.bit_width() {
+                8 | 16 | 32 => types::I32,
+                _ => types::I64,
             };
 
-            let first_cast = match cast_from.bit_width().cmp(&cast_to.bit_width()) {
-                std::cmp::Ordering::Less if cast_from.signed && cast_to.signed => {
-                    builder.ins().sextend(int_to, val)
-                }
+            let first_cast = match (cast_from.bit_width() as u32).cmp(&int_to.bits()) {
+                std::cmp::Ordering::Less if cast_from.signed => builder.ins().sextend(int_to, val),
                 std::cmp::Ordering::Less => builder.ins().uextend(int_to, val),
                 std::cmp::Ordering::Equal => val,
                 std::cmp::Ordering::Greater => builder.ins().ireduce(int_to, val),
@@ -1592,7 +1592,8 @@ fn cast_num(
         (false, false) => {
             // int to int
             match cast_from.bit_width().cmp(&cast_to.bit_width()) {
-                std::cmp::Ordering::Less if cast_from.signed && cast_to.signed => {
+                // a value is extended according to the type it comes from
+                std::cmp::Ordering::Less if cast_from.signed => {
                     builder.ins().sextend(cast_to.ty, val)
                 }
                 std::cmp::Ordering::Less => builder.ins().uextend(cast_to.ty, val),
